@@ -4,6 +4,7 @@ import (
 	"context"
 	"encoding/json"
 	"fmt"
+	"math"
 	"os"
 	"path/filepath"
 	"sort"
@@ -47,7 +48,10 @@ type hEnv struct {
 	// event is two hours older, and reopens with tight retention options, so
 	// that the next commits truncate the log.
 	age     func() error
-	cleanup func()
+	// ageMinSize overrides the number of events kept after ageing (default 2)
+	ageMinSize int
+	cleanup    func()
+	probeSeq   int
 	// store, when set, can be told to fail the next Store call; a step
 	// carrying failStore: true arms it for exactly that call. storeFailed
 	// tells the oracles whether the last step hit the injected failure.
@@ -158,6 +162,9 @@ func openFile() (*hEnv, error) {
 			return err
 		}
 		opts.MinOplogSize, opts.MaxOplogSize = 2, 1000
+		if h.ageMinSize > 0 {
+			opts.MinOplogSize = h.ageMinSize
+		}
 		opts.MinOplogAge, opts.MaxOplogAge = time.Second, time.Minute
 		return open()
 	}
@@ -321,6 +328,33 @@ func (h *hEnv) execStep(step bson.D) (res bson.D, perr error) {
 		return optD(step, "sort"), optD(step, "proj"), asI(getD(step, "skip")), asI(getD(step, "limit"))
 	}
 	switch op {
+	case "watchProbe":
+		// a change stream opened with a start time the caller owns: after
+		// Watch returned the caller overwrites the timestamp and the options;
+		// the stream must still deliver what it was opened for
+		ts := primitive.Timestamp{T: 1, I: 0}
+		opts := options.ChangeStream().SetStartAtOperationTime(&ts)
+		pipeline := bson.A{}
+		st, err := h.coll(ns).Watch(ctx, pipeline, opts)
+		if err != nil {
+			return finish(bson.D{{Key: "err", Value: errClass(err)}})
+		}
+		ts = primitive.Timestamp{T: math.MaxUint32, I: math.MaxUint32}
+		*opts = options.ChangeStreamOptions{}
+		id := fmt.Sprintf("wp-%d", h.probeSeq)
+		h.probeSeq++
+		_, ierr := h.coll(ns).InsertOne(ctx, bson.D{{Key: "_id", Value: id}})
+		got := false
+		if ierr == nil {
+			for i := 0; i < 3 && !got; i++ {
+				got = st.TryNext(ctx)
+			}
+			if !got && h.argViolation == "" {
+				h.argViolation = fmt.Sprintf("a change stream opened with StartAtOperationTime(&ts) delivers nothing after the caller overwrote ts and the options (stream error: %v); the call kept the caller's pointer", st.Err())
+			}
+		}
+		_ = st.Close(ctx)
+		return finish(bson.D{{Key: "err", Value: errClass(ierr)}, {Key: "id", Value: id}})
 	case "expire":
 		// one expiry pass, exactly as the engine's background loop does it
 		txn, err := h.engine.Begin(nil, true)
